@@ -23,7 +23,7 @@ P_DIFF_CONCRETE = False
 # decision: with ENFORCE_BALANCE = True (or VERIF_C09_BALANCE=1) the oracle reports every case whose balance is
 # not 0 as a violation.
 ENFORCE_BALANCE = os.environ.get("VERIF_C09_BALANCE", "0") == "1"
-TRUSTED = ["translator gen/cfun.py + gen/arraylist_gen.py (stub functions cut from the text of source/array_list.c: "
+TRUSTED = ["translator gen/cfun.py + gen/arraylist_gen.py (stub functions cut from the text of source/array_list.c and array_list.inl: "
            "calc_necessary_size, growth rule, slice arithmetic; regenerated every run)",
            "hand models lean/AwsVerif/Model/ArrayList.lean, LinkedList.lean (tied by this correspondence run only)",
            "harness/seqs.c ghost bookkeeping (which node is in which list; fatal-precondition skips)",
@@ -57,7 +57,7 @@ def regen(ctx):
 MAXS = 2 ** 64 - 1
 LIMIT = 65536
 NLL, NNODES = 3, 8
-ISZ_BOUNDARY = [1, 2, 3, 4, 7, 8, 16, 31, 32, 33, 64, 100, 127, 128, 129, 200, 255, 256, 257, 300]
+ISZ_BOUNDARY = [1, 2, 3, 4, 7, 8, 16, 24, 31, 32, 33, 64, 100, 127, 128, 129, 200, 255, 256, 257, 300]
 
 
 def val(k, isz):
@@ -680,7 +680,22 @@ class _Permissive(Lines):
         return None
 
 
+def _huge(rng, n, isz):
+    """a count / index near the limits of size_t: MAX, HALF, powers of two, SIZE_MAX/item_size, and the values whose
+    product with item_size wraps modulo 2^64 to a few elements (ceil(j*2^64/item_size) + d)"""
+    q = MAXS // isz
+    pool = [MAXS, MAXS - 1, MAXS // 2, MAXS // 2 + 1, 2 ** 63, 2 ** 63 + 1, 2 ** 62, 2 ** 61 + 2, 2 ** 32, 2 ** 32 + 1, 2 ** 32 - 1,
+            q, q + 1, q + 2, q - 1, MAXS - n, MAXS - n + 1]
+    for _ in range(6):
+        j = rng.randint(1, max(1, isz - 1)) if isz > 1 else 1
+        base = -((-(2 ** 64) * j) // isz)           # ceil(j * 2^64 / isz)
+        pool.append(base + rng.choice([0, 1, 2, max(n - 1, 0), n, n + 1]))
+    return str(min(max(rng.choice(pool), 0), MAXS))
+
+
 def _idx(rng, n, isz):
+    if rng.random() < 0.12:
+        return _huge(rng, n, isz)
     r = rng.random()
     if r < 0.45 and n > 0:
         return str(rng.randrange(n))
@@ -705,6 +720,9 @@ def gen_al_case(rng, maxops, debug=False):
                 _sim_al(s, f"al init_full l{k} {rng.choice([1, 2, 3, 4, 6, 10])} {size} {rng.randint(0, 40)}")
             elif rng.random() < 0.3:
                 _sim_al(s, f"al init_static l{k} {rng.choice([1, 2, 3, 4, 6, 10])} {size}")
+            elif rng.random() < 0.06:
+                _sim_al(s, f"al init_dyn l{k} {_huge(rng, 0, size)} {size}")     # OVERFLOW_DETECTED or skip (too large)
+                _sim_al(s, f"al init_dyn l{k} {rng.choice([0, 1, 4])} {size}")
             else:
                 _sim_al(s, f"al init_dyn l{k} {rng.choice([0, 0, 1, 2, 3, 5, 8])} {size}")
         init(0, isz)
@@ -743,6 +761,8 @@ def gen_al_case(rng, maxops, debug=False):
                 _sim_al(s, f"al {op} l{k} {_idx(rng, n, r.isz)}")
             elif op == "pop_front_n":
                 m = rng.choice([0, 1, 2, max(n - 1, 0), n, n + 1, "MAX"]) if rng.random() < 0.7 else rng.randint(0, n + 1)
+                if rng.random() < 0.3:
+                    m = _huge(rng, n, r.isz)
                 _sim_al(s, f"al pop_front_n l{k} {m}")
             elif op == "swap":
                 if n >= 1 and rng.random() < 0.93:
@@ -751,6 +771,8 @@ def gen_al_case(rng, maxops, debug=False):
                         a, b = rng.choice([(0, n - 1), (n - 1, 0), (0, 0), (n // 2, n - 1)])
                 else:
                     a, b = n, rng.randint(0, n)
+                    if rng.random() < 0.5:
+                        a = _huge(rng, n, r.isz)
                 _sim_al(s, f"al swap l{k} {a} {b}")
             elif op in ("copy", "swapc"):
                 o = rng.randrange(nl)
@@ -861,7 +883,7 @@ def gen_pop_case(rng, debug=True):
     """a list of 3..12 elements over exact-size static storage (canaries, ASan red zone right behind) or a dynamic block,
     then pops of fewer / exactly / more than half of the elements, erase, clear, shrink, refills — the offsets and sizes
     of the memmove / poison-fill code (the fills exist only with -DDEBUG_BUILD)"""
-    isz = rng.choice([1, 2, 3, 8, 17, 64, 127, 128, 129, 300]) if rng.random() < 0.8 else rng.randint(1, 300)
+    isz = rng.choice([1, 2, 3, 7, 8, 17, 24, 64, 127, 128, 129, 300]) if rng.random() < 0.8 else rng.randint(1, 300)
     s = _Sink(debug)
     n0 = rng.randint(3, 12)
     if rng.random() < 0.5:
@@ -876,6 +898,8 @@ def gen_pop_case(rng, debug=True):
         x = rng.random()
         if x < 0.3:
             k = rng.choice([1, max(1, n // 2 - 1), n // 2, n // 2 + 1, max(n - 1, 0), n, n + 1, 0])
+            if rng.random() < 0.3:
+                k = _huge(rng, n, isz)
             _sim_al(s, f"al pop_front_n l0 {k}")
         elif x < 0.45:
             _sim_al(s, "al pop_front l0")
